@@ -88,6 +88,24 @@ theorem fresh_instance_same (fuel : Nat) (w : World) (steps : Steps) (text : Lis
   obtain ⟨b1, b2⟩ := worldStep_self fuel _ _ text _ h0
   exact ⟨h1.trans h0.symm, a1.trans b1.symm, a2.trans b2.symm⟩
 
+/-- THE BUNDLED FORMS ARE NEVER WRITTEN TO. Evaluating a text — `define-syntax` forms, failing
+forms, macro uses and lambda bodies (which open and close child scopes) included — changes at
+most the FIRST scope of the interpreter's syntax environment: every scope below it is returned
+unchanged. (`Xform.SynEnv.define` inserts into the innermost scope; `Xform.inChild` drops the
+scope it pushed; `eval_ast` does not touch `syn` at all.) This is the model-level content of the
+repaired defect: before the repair `define-syntax` wrote into a table shared by all instances. -/
+theorem syn_base_unchanged (fuel : Nat) (st : State) (text : List Char)
+    (own : List (String × Macro.Rules)) (base : Xform.SynEnv) (h : st.syn = own :: base) :
+    ∃ own', (evalText fuel st text).2.syn = own' :: base :=
+  evalText_syn fuel st text own base h
+
+/-- hence every instance made by `new_with_stdlib()` (or `default()`), after any texts, still has
+the constant `grammarScope` as its bottom scope, under one scope of its own -/
+theorem bundled_forms_constant (fuel : Nat) (texts : List (List Char)) :
+    (withStdlib fuel false).syn = [[], grammarScope] ∧
+    ∃ own, (runAlone fuel (withStdlib fuel false) texts).2.syn = [own, grammarScope] :=
+  ⟨withStdlib_syn fuel false, runAlone_syn fuel texts _ [] [grammarScope] (withStdlib_syn fuel false)⟩
+
 section Example
 /- non-vacuity on concrete input: instance 0 defines `x` and a macro `m`, then fails; instance 1
 evaluates `x` — unbound there, before and after -/
@@ -96,10 +114,12 @@ private def t1 : List Char := "x".toList
 
 example : textsFor 1 [(0, t0), (1, t1), (0, t1)] = [t1] := by decide
 
-example (fuel : Nat) (w : World) (st : State) (h : w[1]? = some st) :
-    ((runSteps fuel w [(0, t0), (1, t1), (0, t1)]).1.filter (fun r => r.1 = 1)).map (·.2)
-      = [some (evalText fuel st t1).1] := by
-  have := (noninterference fuel w [(0, t0), (1, t1), (0, t1)] 1 st h).1
+example (fuel : Nat) :
+    ((runSteps fuel (worldNew fuel (worldNew fuel [])) [(0, t0), (1, t1), (0, t1)]).1.filter
+        (fun r => r.1 = 1)).map (·.2)
+      = [some (evalText fuel (withStdlib fuel false) t1).1] := by
+  have := (noninterference fuel (worldNew fuel (worldNew fuel [])) [(0, t0), (1, t1), (0, t1)] 1
+    (withStdlib fuel false) (by simp [worldNew])).1
   simpa [textsFor, runAlone] using this
 end Example
 
